@@ -196,6 +196,58 @@ example : let f32 : Ty := .tensor 11 (some []); let decl := [("p", f32), ("x", T
     callAccepted table decl [] [f32, ok] [] = false ∧ callAccepted table decl [("q", f32)] [f32, ok] [] = true := by decide +kernel
 
 
+/-! ### argument binding: positional, keyword (any order) -/
+
+theorem bindFrom_pos (dflt : List (String × Ty)) (kw : List (String × Ty)) :
+    (names : List String) → (pre vs : List Ty) → names.length = vs.length →
+      bindFrom dflt (pre ++ vs) kw names pre.length = some vs
+  | [], pre, vs, h => by
+    have : vs = [] := by cases vs <;> simp_all
+    subst this; simp [bindFrom]
+  | n :: ns, pre, [], h => by simp at h
+  | n :: ns, pre, v :: vs, h => by
+    simp only [List.length_cons, Nat.add_right_cancel_iff] at h
+    have ih := bindFrom_pos dflt kw ns (pre ++ [v]) vs h
+    simp only [List.append_assoc, List.singleton_append, List.length_append, List.length_cons, List.length_nil,
+      Nat.zero_add] at ih
+    simp [bindFrom, bindOne, ih]
+
+/-- All-positional call: the values are bound in order (when there are as many as inputs). -/
+theorem bindCall_positional (names : List String) (dflt : List (String × Ty)) (vs : List Ty)
+    (h : names.length = vs.length) : bindCall names dflt vs [] = some vs := by
+  have := bindFrom_pos dflt [] names [] vs h
+  simp only [List.nil_append, List.length_nil] at this
+  simp [bindCall, h, lookupKw, this]
+
+theorem bindFrom_congr (dflt : List (String × Ty)) (pos : List Ty) (kw kw' : List (String × Ty))
+    (h : ∀ n, lookupKw kw n = lookupKw kw' n) :
+    (names : List String) → (i : Nat) → bindFrom dflt pos kw names i = bindFrom dflt pos kw' names i
+  | [], _ => rfl
+  | n :: ns, i => by simp only [bindFrom, bindOne, h, bindFrom_congr dflt pos kw kw' h ns (i + 1)]
+
+/-- **The order (and any other presentation) of the keyword arguments is irrelevant**: two keyword lists that give
+    every name the same value, and agree on whether an unknown keyword is present, bind identically - so the
+    judgement of `call_boundary_exact` falls on the same values. -/
+theorem bindCall_keyword_order (names : List String) (dflt : List (String × Ty)) (pos : List Ty)
+    (kw kw' : List (String × Ty)) (h : ∀ n, lookupKw kw n = lookupKw kw' n)
+    (hu : kw.any (fun p => !names.contains p.1) = kw'.any (fun p => !names.contains p.1)) :
+    bindCall names dflt pos kw = bindCall names dflt pos kw' := by
+  simp only [bindCall, h, hu, bindFrom_congr dflt pos kw kw' h names 0]
+
+/-- A keyword call that names every input binds the keyword values in the order of the model's inputs. -/
+theorem bindFrom_keywords (dflt kw : List (String × Ty)) :
+    (names : List String) → (i : Nat) → (∀ n ∈ names, (lookupKw kw n).isSome = true) →
+      bindFrom dflt [] kw names i = some (names.map (fun n => (lookupKw kw n).getD default))
+  | [], _, _ => rfl
+  | n :: ns, i, h => by
+    have hn := h n (by simp)
+    cases hk : lookupKw kw n with
+    | none => simp [hk] at hn
+    | some v =>
+      have ih := bindFrom_keywords dflt kw ns (i + 1) (fun m hm => h m (by simp [hm]))
+      simp [bindFrom, bindOne, hk, ih]
+
+
 /-! ## Broadcasting -/
 
 /-- **On known dimensions static broadcasting is numpy's rule.** -/
